@@ -343,6 +343,14 @@ def instances(tier, seed):
         if quick:
             r.shuffle(combos)
             combos = combos[:260]
+        # x2 TRANSPOSE resampling (transpose convolutions; stride 1 after the lowering): always run, even and odd kernels, every block size
+        for bw in ws:
+            for bh in hs:
+                for (kw, kh) in ((2, 2), (3, 3), (4, 4), (1, 2)):
+                    for bits in (8, 16):
+                        if quick and (bits == 16) != ((kw, kh) == (3, 3)):
+                            continue
+                        combos.append(dict(accel=accel, kind="conv", bits=bits, bw=bw, bh=bh, kw=kw, kh=kh, dil=1, stride=1, lut=0, scalar=0, upscale=2, partk=0, scaled=1))
         for c in combos:
             out.append(dict(key="layout/%s/%s%d/b%dx%d/k%dx%dd%d/s%dx%s/l%d_sc%d_u%d_p%d" % (c["accel"], c["kind"], c["bits"], c["bh"], c["bw"], c["kh"], c["kw"],
                                                                                          c["dil"], c["stride"], c.get("stride_y", c["stride"]), c["lut"], c["scalar"], c["upscale"], c["partk"]),
